@@ -34,6 +34,39 @@ type version struct {
 	scores  func(b []byte) []float64
 	rating  func(x float64) (string, error)
 	errCode func(err error) string
+	// eqhist: build the object twice from the same bytes, call every non-mutating operation on one of them (all reads,
+	// all scores, failed Sets), then compare the two with Go's == (C07: equal values
+	// => equal objects, whatever calls came before); also against ParseVector(Vector()) when that holds the same bytes
+	eqhist func(b []byte, abv string) string
+}
+
+func eqHist[T comparable, P interface {
+	*T
+	Vector() string
+	Get(string) (string, error)
+	Set(string, string) error
+}](a, fresh P, parse func(string) (P, error), scores func(P), bytesOf func(P) []byte, ms []metric, abv string) string {
+	_ = a.Vector()
+	for _, mt := range ms {
+		a.Get(mt.abv)
+	}
+	a.Get("??")
+	func() {
+		defer func() { recover() }()
+		scores(a)
+	}()
+	a.Set("??", "?")
+	a.Set(abv, "\x00")
+	if string(bytesOf(a)) != string(bytesOf(fresh)) {
+		return "bytes-changed-by-reads"
+	}
+	if *a != *fresh {
+		return "neq-fresh: same bytes, == is false after read-only calls"
+	}
+	if p, err := parse(a.Vector()); err == nil && p != nil && string(bytesOf(p)) == string(bytesOf(a)) && *p != *a {
+		return "neq-parsed: same bytes, == is false against ParseVector(Vector())"
+	}
+	return "eq"
 }
 
 func m(abv string, mand bool, group int, vs ...string) metric {
@@ -76,6 +109,17 @@ func errS(code int, abv string) string { return fmt.Sprintf("%d:%s", code, hexS(
 
 var v20 = &version{
 	name: "20", n: 4, header: "", metrics: metrics20,
+	eqhist: func(b []byte, abv string) string {
+		return eqHist(gocvss20.VerifFromBytes([4]byte(b)), gocvss20.VerifFromBytes([4]byte(b)), gocvss20.ParseVector,
+			func(c *gocvss20.CVSS20) {
+				c.BaseScore()
+				c.TemporalScore()
+				c.EnvironmentalScore()
+				c.Impact()
+				c.Exploitability()
+			},
+			func(c *gocvss20.CVSS20) []byte { x := gocvss20.VerifBytes(c); return x[:] }, metrics20, abv)
+	},
 	parse: func(s string) ([]byte, error) {
 		c, err := gocvss20.ParseVector(s)
 		if (c == nil) == (err == nil) {
@@ -121,6 +165,17 @@ var v20 = &version{
 
 var v30 = &version{
 	name: "30", n: 6, header: "CVSS:3.0", metrics: metrics3,
+	eqhist: func(b []byte, abv string) string {
+		return eqHist(gocvss30.VerifFromBytes([6]byte(b)), gocvss30.VerifFromBytes([6]byte(b)), gocvss30.ParseVector,
+			func(c *gocvss30.CVSS30) {
+				c.BaseScore()
+				c.TemporalScore()
+				c.EnvironmentalScore()
+				c.Impact()
+				c.Exploitability()
+			},
+			func(c *gocvss30.CVSS30) []byte { x := gocvss30.VerifBytes(c); return x[:] }, metrics3, abv)
+	},
 	parse: func(s string) ([]byte, error) {
 		c, err := gocvss30.ParseVector(s)
 		if (c == nil) == (err == nil) {
@@ -175,6 +230,17 @@ var v30 = &version{
 
 var v31 = &version{
 	name: "31", n: 6, header: "CVSS:3.1", metrics: metrics3,
+	eqhist: func(b []byte, abv string) string {
+		return eqHist(gocvss31.VerifFromBytes([6]byte(b)), gocvss31.VerifFromBytes([6]byte(b)), gocvss31.ParseVector,
+			func(c *gocvss31.CVSS31) {
+				c.BaseScore()
+				c.TemporalScore()
+				c.EnvironmentalScore()
+				c.Impact()
+				c.Exploitability()
+			},
+			func(c *gocvss31.CVSS31) []byte { x := gocvss31.VerifBytes(c); return x[:] }, metrics3, abv)
+	},
 	parse: func(s string) ([]byte, error) {
 		c, err := gocvss31.ParseVector(s)
 		if (c == nil) == (err == nil) {
@@ -229,6 +295,11 @@ var v31 = &version{
 
 var v40 = &version{
 	name: "40", n: 9, header: "CVSS:4.0", metrics: metrics40,
+	eqhist: func(b []byte, abv string) string {
+		return eqHist(gocvss40.VerifFromBytes([9]byte(b)), gocvss40.VerifFromBytes([9]byte(b)), gocvss40.ParseVector,
+			func(c *gocvss40.CVSS40) { c.Score(); c.Nomenclature() },
+			func(c *gocvss40.CVSS40) []byte { x := gocvss40.VerifBytes(c); return x[:] }, metrics40, abv)
+	},
 	parse: func(s string) ([]byte, error) {
 		c, err := gocvss40.ParseVector(s)
 		if (c == nil) == (err == nil) {
